@@ -389,8 +389,14 @@ func (a *Analyzer) valueSummary(f *ssa.Function) *Term {
 	return t
 }
 
-func (a *Analyzer) computeValueSummary(f *ssa.Function) *Term {
-	if f.Blocks == nil || !inLibraryScope(funcPkgPath(f)) || isSpecTypesPkg(funcPkgPath(f)) || keepNamed[shortName(f)] {
+func (a *Analyzer) computeValueSummary(f *ssa.Function) *Term { return a.computeValueSummaryOpt(f, false) }
+
+// PathTerm: the conditional term of a pure loop-free function regardless of its being an anchor (used by rules that
+// compare an anchored function with its specification).
+func (a *Analyzer) PathTerm(f *ssa.Function) *Term { return a.computeValueSummaryOpt(f, true) }
+
+func (a *Analyzer) computeValueSummaryOpt(f *ssa.Function, force bool) *Term {
+	if f.Blocks == nil || !inLibraryScope(funcPkgPath(f)) || isSpecTypesPkg(funcPkgPath(f)) || (keepNamed[shortName(f)] && !force) {
 		return nil
 	}
 	if f.Recover != nil || f.Signature.Results().Len() == 0 {
@@ -453,7 +459,7 @@ func (a *Analyzer) computeValueSummary(f *ssa.Function) *Term {
 	}
 	// (B) only unexported helpers without an error result: exported functions are anchors, and error-returning
 	// validators are handled (better) by their success/failure summaries
-	if f.Object() != nil && f.Object().Exported() {
+	if f.Object() != nil && f.Object().Exported() && !force {
 		return nil
 	}
 	for i := 0; i < f.Signature.Results().Len(); i++ {
